@@ -14,7 +14,7 @@ EXPLANATION = ("Necessary structure of 'reads return only the current value of t
                "reaches the value store only through lookup functions that perform exactly one lookup per call, "
                "keyed by the caller's key, and return the entry's value only after the liveness predicate held on "
                "the same entry guard; the key flows unchanged through every layer (including multi_get and both "
-               "iterators); no public function hands out a mutable reference into the store; the value the worker "
+               "iterators; each iterator step yields only a value read during that step); no public function hands out a mutable reference into the store; the value the worker "
                "inserts and the key it inserts it under come from the same dequeued command. The history-level "
                "statement (no stale value under any interleaving) follows by a hand argument from per-shard lock "
                "atomicity and is not computed.")
